@@ -17,6 +17,9 @@
 //     while those classes are in free-list mode; same predicates plus the slot-by-slot structure check, panics
 //     and hangs inside Malloc/Free.  Quick and thorough.  (The -race variant of stream 2 is thorough only.)
 //
+//  4. the allocator as wired into the node (node.go): the real common.InitConfig(), a real UnspentDB, run-time config
+//     changes through common.Reset(), defrag_utxo ticks; one child process per case; compared with Model/AllocNode.lean.
+//
 // In all streams the property's own predicate is evaluated on the real code independently of the model.
 package main
 
@@ -1817,8 +1820,9 @@ func main() {
 		"DefragAllImproved runs while no Malloc/Free is in progress (as its comment requires)",
 		"one model step per Malloc/Free call covers all interleavings of calls because each body runs under the mutex of the class it edits: checked source fact (gen_c20/locks.go extracts the Lock() index and every per-class access of Malloc/Free and their callees; Props.C20.malloc_locks_own_class / free_locks_own_class); sync.Mutex itself and memory-level races inside slot memory are outside the model (the concurrent and churn streams explore them on the real code only)",
 		"pointer layer: the model keeps every link field (node.prev/next/prevInPage/nextInPage, header.prev/next/freeList, lists/firstPage/lastPage) next to the abstract lists; Props.C20.rep_inv proves they spell the lists, the harness compares every field reachable through pointers with the real allocator's memory (VerifLinks) and also walks next/prev in both directions",
+		"node wiring: which functions write common.Memory / utxo.Memory_Malloc / utxo.Memory_Free and from where they are reachable is a regenerated source fact (gen_c20/wire.go, syntactic mention graph over client/ and lib/utxo/); the TextUI / WebUI config handlers are mirrored by the harness (copy CFG + fragment + Reset, save + load + Reset, whole JSON + Reset), not called",
 		"sort.Slice is not stable: the model takes the evacuation order observed on the real allocator and checks it against the selection rule (sorted by used, stop when recordsToFree >= target); theorems hold for every legal order",
 	}
-	r.Finish("corpus: every size-class boundary (slot-1, slot, slot+1 for all classes of the generated table), the private-mapping boundaries and 200 KiB; page-edge traces; random mixed traces; single-class traces; defragmentation scenarios at 5 fragmentation patterns (uniform, whole pages emptied, equal use on every page, at the 12-page threshold, everything freed) each followed by an aftermath and a second pass; 2..16-goroutine phases with barrier checks and defrag; steady-state churn cases (2..4 goroutines sharing 1..3 size classes in free-list mode, the classes walking a permutation of all dense small classes). distinct = distinct traces (name, length, middle op); every trace reaches Malloc and Free on the real allocator",
+	r.Finish("corpus: every size-class boundary (slot-1, slot, slot+1 for all classes of the generated table), the private-mapping boundaries and 200 KiB; page-edge traces; random mixed traces; single-class traces; defragmentation scenarios at 5 fragmentation patterns (uniform, whole pages emptied, equal use on every page, at the 12-page threshold, everything freed) each followed by an aftermath and a second pass; 2..16-goroutine phases with barrier checks and defrag; steady-state churn cases (2..4 goroutines sharing 1..3 size classes in free-list mode, the classes walking a permutation of all dense small classes); node lives (InitConfig in allocator or Go-heap mode, raw Malloc/Free, UTXO blocks with partial and full spends, large-class waves, config changes of 27 settings in three forms with Memory.UseGoHeap flipped at least once, defrag_utxo ticks). distinct = distinct traces (name, length, middle op); every trace reaches Malloc and Free on the real allocator",
 		"single-threaded traces are compared step by step with the Lean model (address, Len/Cap, counters, complete per-class state incl. free-list order, every link field of the pointer layer, relocate sequence); independently of the model the property predicate is evaluated on the real allocator: fill pattern on free/relocate/end, overlap registry over all live slot ranges, Len/Cap/Data, Allocs = live, slot-by-slot 'live xor on free list', relocate exactly once")
 }
